@@ -34,3 +34,89 @@ def inventory(scenario, pps=None):
         inv["planning_problems"] = sorted((pid, len(pp.goal.state_list))
                                           for pid, pp in pps.planning_problem_dict.items())
     return inv
+
+
+# ------------------------------------------------------------------ descriptors (plain data) and tolerant comparison
+import math  # noqa: E402
+
+import numpy as np  # noqa: E402
+
+from commonroad.common.util import AngleInterval, Interval  # noqa: E402
+from commonroad.geometry.shape import Circle, Polygon, Rectangle, Shape, ShapeGroup  # noqa: E402
+
+
+def shape_desc(s):
+    if s is None:
+        return None
+    if isinstance(s, Rectangle):
+        return ["rect", float(s.length), float(s.width), float(s.center[0]), float(s.center[1]),
+                ("ang", float(s.orientation))]
+    if isinstance(s, Circle):
+        return ["circ", float(s.radius), float(s.center[0]), float(s.center[1])]
+    if isinstance(s, Polygon):
+        return ["poly", [[float(x) for x in v] for v in np.asarray(s.vertices).tolist()]]
+    if isinstance(s, ShapeGroup):
+        return ["group", [shape_desc(x) for x in s.shapes]]
+    return ["?", type(s).__name__]
+
+
+def value_desc(v):
+    if v is None or isinstance(v, (bool, str)):
+        return v
+    if isinstance(v, AngleInterval):
+        return ["aiv", float(v.start), float(v.end)]
+    if isinstance(v, Interval):
+        return ["iv", float(v.start), float(v.end)]
+    if isinstance(v, Shape):
+        return shape_desc(v)
+    if isinstance(v, np.ndarray):
+        return [float(x) for x in v.tolist()]
+    if isinstance(v, (int, np.integer)):
+        return int(v)
+    if isinstance(v, (float, np.floating)):
+        return float(v)
+    if isinstance(v, (list, tuple)):
+        return [value_desc(x) for x in v]
+    if isinstance(v, (set, frozenset)):
+        return sorted(value_desc(x) for x in v)
+    return ["?", type(v).__name__]
+
+
+def state_desc(st):
+    """class name + every attribute the state object has (in its own order) + values."""
+    if st is None:
+        return None
+    out = [type(st).__name__]
+    for a in st.attributes:
+        v = getattr(st, a)
+        if a == "orientation" and isinstance(v, (float, int)) and not isinstance(v, bool):
+            out.append([a, ("ang", float(v))])
+        else:
+            out.append([a, value_desc(v)])
+    return out
+
+
+def occ_desc(occ):
+    if occ is None:
+        return None
+    return [value_desc(occ.time_step), shape_desc(occ.shape)]
+
+
+def approx_equal(a, b, tol=1e-9):
+    """Structural equality; floats within tol (relative to magnitude), ('ang', x) modulo 2 pi."""
+    if isinstance(a, tuple) and isinstance(b, tuple) and len(a) == 2 and a[0] == "ang" and b[0] == "ang":
+        d = (a[1] - b[1] + math.pi) % (2 * math.pi) - math.pi
+        return abs(d) <= tol * 10
+    if isinstance(a, bool) or isinstance(b, bool) or a is None or b is None or isinstance(a, str) or isinstance(b, str):
+        return a == b and type(a) is type(b)
+    if isinstance(a, float) or isinstance(b, float):
+        if not isinstance(a, (int, float)) or not isinstance(b, (int, float)):
+            return False
+        return abs(a - b) <= tol * max(1.0, abs(a), abs(b))
+    if isinstance(a, int) and isinstance(b, int):
+        return a == b
+    if isinstance(a, (list, tuple)) and isinstance(b, (list, tuple)):
+        return len(a) == len(b) and all(approx_equal(x, y, tol) for x, y in zip(a, b))
+    if isinstance(a, dict) and isinstance(b, dict):
+        return a.keys() == b.keys() and all(approx_equal(a[k], b[k], tol) for k in a)
+    return a == b
